@@ -170,7 +170,7 @@ def run_pass_cases(chk, cases, quick):
                 break
             sig = f"passes:unflagged-value-change:{cmd}"
             shown[sig] += 1
-            if shown[sig] <= 3:
+            if shown[sig] <= 2:
                 chk.fail("oracle", sig, {"sub": "passes", "line": l, "input": pg.show(pg.dec(l.split()[2]))[:300]},
                          {"output": pg.show(pg.dec(head[1]))[:300], "before": before[:120], "after": after[:120], "stream": stream})
             break
@@ -206,16 +206,17 @@ def chain_env(r):
 
 # ---- programs: what the passes see inside real compilations ---------------------------------------
 
-# (body, class) — class: the excluded class the program is built to exercise through an INNER compilation
-# (the `if` macro compiles each wing with `com`, through a fresh optimizer object the recorder cannot
-# see); used as the signature only when the two builds differ and no recorded call explains it.
+# (body, class) — class: the REPAIRED defect (fix: commits c770023-3, findings C02-null-root-quote,
+# C02-legacy-zero-truthy, C02-double-apply-requoted) the program was built to exercise, many of them through
+# an INNER compilation (the `if` macro compiles each wing with `com`, through a fresh optimizer object the
+# recorder cannot see).  If the two builds of such a program differ again the class names the regression.
 DIRECTED = [
     # quoted constants whose sub-lists look like `(q)`, and constant conditions spelt with zero bytes
-    ("(q (1))", None), ("(q . ((1) 2))", None), ("(if A (q . ((1) 2)) (q . (3 (1))))", "null-root-quote"),
+    ("(q (1))", "null-root-quote"), ("(q . ((1) 2))", "null-root-quote"), ("(if A (q . ((1) 2)) (q . (3 (1))))", "null-root-quote"),
     ("(c A (q . ((1) (1 . 2))))", None), ("(if A (c B (q . ((1)))) (q . ((q) 7)))", "null-root-quote"),
-    ("(i 0x00 A B)", None), ("(i 0x0000 A B)", None), ("(i (q . 0x00) A B)", None), ("(if 0x00 A B)", None), ("(i 0 A B)", None),
+    ("(i 0x00 A B)", "legacy-zero-truthy"), ("(i 0x0000 A B)", "legacy-zero-truthy"), ("(i (q . 0x00) A B)", "legacy-zero-truthy"), ("(if 0x00 A B)", None), ("(i 0 A B)", None),
     ("(i () A B)", None), ("(i 1 A B)", None), ("(i 0x01 A B)", None),
-    ("(c (i 0x00 A B) (i (q . 0x0000) B A))", None), ("(i (concat 0x00) A B)", None),
+    ("(c (i 0x00 A B) (i (q . 0x0000) B A))", "legacy-zero-truthy"), ("(i (concat 0x00) A B)", None),
     ("(if 1 (q . ((3 () 2 3))) A)", "double-apply-requoted"), ("(if (= 1 1) (q . ((3 () 2 3))) A)", "double-apply-requoted"),
     ("(if 1 (q . ((2 (1 . 5) 1))) A)", "double-apply-requoted"),
     ("(c A (if (l (q . (1))) (q . ((3 () 2 3))) A))", "double-apply-requoted"), ("(a (q 1 . ((3 () 2 3))) 1)", "double-apply-requoted"),
@@ -223,7 +224,7 @@ DIRECTED = [
     ("(c (f (r (c A (c B ())))) (r (f (c (c A B) A))))", None), ("(f (r (r (c A (c B (c A ()))))))", None), ("(c (q) (c (q . ()) A))", None),
     ("(defun K (X) (q . ((1) 2))) (c (K A) (K 3))", "null-root-quote"), ("(defconstant K (q . ((1) 2))) (c K A)", "null-root-quote"),
     ("(defun F (X) (if X (c (q . ((1) (3 () 2 3))) (F (r X))) (q . ((1) 2)))) (F A)", "null-root-quote"),
-    ("(defun F (X Y) (if X (i 0x00 X Y) (i (q . 0x0000) Y X))) (F A B)", None),
+    ("(defun F (X Y) (if X (i 0x00 X Y) (i (q . 0x0000) Y X))) (F A B)", "legacy-zero-truthy"),
     ("(let ((x (+ A 1))) (c x (q . ((1) (q) 7))))", None), ("(assign x (+ A 1) y (q . ((1))) (c x y))", None),
 ]
 
@@ -247,20 +248,13 @@ def stage_of(line, flags):
     return t[2]
 
 
-def flag_class(kind, mode, rich_in, stages, flagged_other_mode):
-    """name of the excluded class a flagged recorded call belongs to (signature of the finding)."""
-    r = pg.dec(rich_in)
-    h = r[1] if r[0] == "C" else None
-    quoted_root = h is not None and (h == ("I", 1) or (h[0] == "A" and h[1] == b"\x01") or (h[0] == "Q" and h[2] == b"\x01"))
-    if mode == "0" and not flagged_other_mode:
-        return "legacy-zero"
-    if stages.startswith("S1") and quoted_root:
-        return "null-root-quote"
-    if stages[2:3] == "1":
-        return "double-apply-requoted"
+def flag_class(stages):
+    """name of the excluded class (shape the `_partial` theorems exclude) a flagged recorded call met."""
     if stages[1:2] == "1":
-        return "null-shape"
-    return "brief-shape"
+        return "null-excluded-shape"
+    if stages[2:3] == "1":
+        return "double-apply-excluded-shape"
+    return "brief-excluded-shape"
 
 
 def run_recorded(chk, quick):
@@ -298,42 +292,56 @@ def run_recorded(chk, quick):
             exp.append(r)
             src.append(bytes.fromhex(ln.split()[2]).decode())
     mo = lib.run_model("passes", ml)
-    flagged = []
     nbad = 0
+    nflag = 0
+    probe = []        # calls the oracle looks at: rewritten by the compiler, flagged by the model, or disagreeing
     for l, m, e, s in zip(ml, mo, exp, src):
         chk.note_case(("passes-rec", l.split()[0], l.split()[2]), nontrivial=True)
         mm = m.split(" | ")
         got = mm[0].split()[1] if len(mm[0].split()) > 1 else "?"
-        if got != e:
+        bad = got != e
+        if bad:
             nbad += 1
             if nbad <= 5:
                 chk.fail("correspondence", "corr:passes-recorded-" + l.split()[0], {"sub": "passes", "line": l[:600], "program": s[:400]},
                          {"model": got[:300], "compiler": e[:300]})
         else:
             chk.cov["traces_validated_against_impl"] = chk.cov.get("traces_validated_against_impl", 0) + 1
-        if l.split()[2] != e:
+        rewritten = l.split()[2] != e
+        if rewritten:
             chk.count("passes:rec:rewritten")
         toks = mm[1].split() if len(mm) > 1 else []
         chk.count("passes:rec:codegen-shape:" + (toks[3] if len(toks) > 3 else "?"))
-        if len(mm) > 1 and mm[1].startswith("F1"):
-            flagged.append((l, mm[1], s))
+        flagged = len(mm) > 1 and mm[1].startswith("F1")
+        if flagged:
+            nflag += 1
+            chk.count("passes:rec:flag-class:" + flag_class(stage_of(l, mm[1])))
+        if rewritten or flagged or bad:
+            probe.append((l, e, s, flag_class(stage_of(l, mm[1])) if flagged else None))
     chk.count("passes:rec:calls", len(ml))
     chk.count("passes:rec:disagreements", nbad)
-    chk.count("passes:rec:flagged", len(flagged))
-    # flagged calls inside real compilations: the oracle decides
-    if flagged:
-        other = lib.run_model("passes", [" ".join([l.split()[0], "1" if l.split()[1] == "0" else "0"] + l.split()[2:]) for l, _, _ in flagged])
-        io = lib.run_impl("passes", [l for l, _, _ in flagged])
-        for (l, fl, s), om, b in zip(flagged, other, io):
-            stages = stage_of(l, fl)
-            cls = flag_class(l.split()[0], l.split()[1], l.split()[2], stages, " | F1" in om)
-            chk.count("passes:rec:flag-class:" + cls)
+    chk.count("passes:rec:flagged", nflag)
+    # the oracle on the calls made inside real compilations: value of the pass input vs value of what the
+    # COMPILER made of it (the harness re-runs the pass on the recorded input; it must reproduce the recorded output)
+    shown = collections.Counter()
+    if probe:
+        io = lib.run_impl("passes", [l for l, _, _, _ in probe])
+        for (l, e, s, cls), b in zip(probe, io):
+            head = b.split(" |")[0].split()
+            if len(head) != 2 or head[1] != e:
+                chk.fail("correspondence", "corr:passes-recorded-replay", {"sub": "passes", "line": l[:600], "program": s[:400]},
+                         {"recorded": e[:300], "replayed": b[:300]})
+                continue
             pairs = b.split(" |")[1].split() if " |" in b else []
             for k in range(0, len(pairs) - 1, 2):
+                chk.count("passes:rec:oracle:evaluations")
                 if pairs[k].startswith("ok:") and pairs[k + 1] != pairs[k]:
-                    chk.fail("oracle", "passes:" + cls,
-                             {"sub": "passes", "line": l[:600], "program": s[:400], "pass_input": pg.show(pg.dec(l.split()[2]))[:300]},
-                             {"pass_output": pg.show(pg.dec(b.split()[1]))[:300], "before": pairs[k][:120], "after": pairs[k + 1][:120]})
+                    sig = "passes:recorded-call-value-change:" + (cls or l.split()[0])
+                    shown[sig] += 1
+                    if shown[sig] <= 2:
+                        chk.fail("oracle", sig,
+                                 {"sub": "passes", "line": l[:600], "program": s[:400], "pass_input": pg.show(pg.dec(l.split()[2]))[:300]},
+                                 {"pass_output": pg.show(pg.dec(head[1]))[:300], "before": pairs[k][:120], "after": pairs[k + 1][:120]})
                     break
     # build-vs-build on the directed programs (the differential part of c02.py covers the generated ones)
     dp = directed_programs()
@@ -341,10 +349,7 @@ def run_recorded(chk, quick):
     for e in ("file:000", "file:100"):
         il = [e + " " + p["text"].encode().hex() + " " + " ".join(gen.hexv(a) for a in p["args"]) for p in dp]
         res[e] = lib.run_impl("compile", il, timeout=60, per_job=4)
-    # which class explains a difference: the flags of the recorded calls of that program
-    cls_of = {}
-    for (l, fl, s), om in zip(flagged, other if flagged else []):
-        cls_of.setdefault(s, flag_class(l.split()[0], l.split()[1], l.split()[2], stage_of(l, fl), " | F1" in om))
+    dshown = collections.Counter()
     for i, p in enumerate(dp):
         f, g = res["file:000"][i].split(), res["file:100"][i].split()
         for k in range(len(p["args"])):
@@ -357,8 +362,12 @@ def run_recorded(chk, quick):
             continue
         for k, (x, y) in enumerate(zip(f[2:], g[2:])):
             if x[0] == "V" and x != y:
-                cls = cls_of.get(p["text"]) or p["built_for"]
-                sig = ("compile:passes-" + cls) if cls else "compile:C02:directed-builds-differ"
+                cls = p["built_for"]
+                sig = ("compile:C02:passes-regression:" + cls) if cls else "compile:C02:directed-builds-differ"
+                dshown[sig] += 1
+                if dshown[sig] > 2:
+                    chk.count("passes:directed:more:" + sig)
+                    break
                 chk.fail("oracle", sig, {"dialect": p["dialect"], "entries": ["file:000", "file:100"], "program": p["text"],
                                          "args": gen.hexv(p["args"][k])}, {"file:000": x, "file:100": y})
                 break
@@ -396,8 +405,9 @@ def run(chk):
     chk.cov["modelled_not_verified"] = chk.cov.get("modelled_not_verified", []) + [
         "passes: the Rust `while` loop is modelled with fuel 2*size+2 (proved never to be exhausted: C02.remove_double_apply_terminates); "
         "Rc sharing / source locations are not modelled (locations do not influence any decision of the passes)",
-        "passes: Integer 0 under the legacy conversion and negative path integers are excluded classes no probe produced from source "
-        "(kernel-checked counter-witnesses exist; every recorded pass input was expression-shaped, counter passes:rec:codegen-shape)",
+        "passes: the remaining excluded classes (pair in operator position, negative path Integer, (q . Integer 0) under the legacy "
+        "conversion) have kernel-checked counter-witnesses and were never met on a recorded pass input "
+        "(every recorded input was expression-shaped, counter passes:rec:codegen-shape)",
         "passes: inner compilations (macros, `com`) create their own optimizer object and are not seen by the recorder; their effect is covered build-vs-build",
     ]
     chk.assumptions.append("PassOps (Proofs/PassesLemmas.lean): f/r/c are first/rest/cons, `i` selects by nil-ness, operator 0x71 on no operands "
